@@ -120,6 +120,32 @@ def optional_output_cases():
     return out
 
 
+def inlined_older_model_cases():
+    """Inlined models written for an OLDER default-domain opset whose nodes must be converted (Squeeze / ReduceSum axes: attribute until
+    opset 12, input from 13; Softmax-11 semantics), with the default domain imported under either of its two spellings ('' and 'ai.onnx'
+    - onnxruntime and the converter accept both), used next to opset-17 operators.  Judged by the direct oracle."""
+    import numpy as np
+    import spox.opset.ai.onnx.v17 as op17
+    from onnx import TensorProto as TP, helper as oh
+
+    out = []
+    for spelling in ("", "ai.onnx"):
+        for tag, node, ishape, oshape in (
+                ("squeeze-axes-attr", oh.make_node("Squeeze", ["x"], ["y"], axes=[0]), (1, 2), (2,)),
+                ("reducesum-axes-attr", oh.make_node("ReduceSum", ["x"], ["y"], axes=[0], keepdims=0), (3, 2), (2,)),
+                ("softmax-11", oh.make_node("Softmax", ["x"], ["y"], axis=0), (2,), (2,)),
+                # Resize-10 (X, scales): read at opset >= 11 the second input would be `roi` - the basic checker accepts the node
+                ("resize-10-scales", oh.make_node("Resize", ["x", "scales"], ["y"], mode="nearest"), (1, 1, 2, 2), (1, 1, 4, 4))):
+            inits = [oh.make_tensor("scales", TP.FLOAT, (4,), [1.0, 1.0, 2.0, 2.0])] if tag.startswith("resize") else []
+            g = oh.make_graph([node], "g", [oh.make_tensor_value_info("x", TP.FLOAT, list(ishape))], [oh.make_tensor_value_info("y", TP.FLOAT, list(oshape))], inits)
+            m = oh.make_model(g, opset_imports=[oh.make_operatorsetid(spelling, 10 if tag.startswith("resize") else 11)], ir_version=7)
+            x = B.argument(B.Tensor(np.float32, ishape))
+            b = B.argument(B.Tensor(np.float32, oshape))
+            (y,) = B.inline(m)(x).values()
+            out.append(B.Case({"x": x, "b": b}, {"o": op17.add(y, b)}, False, {"names": f"corner:inlined-opset11/{tag}/default-domain-spelled-{spelling!r}"}))
+    return out
+
+
 def sibling_duplicate_case():
     """Corner: an inlined model whose two If branches each own a value of the same name (legal ONNX)."""
     import numpy as np
@@ -171,7 +197,7 @@ def run(run: Run) -> int:
         c.meta["names"] = "corner:functions"
         cases.append(c)
     cases.append(function_in_branch_and_main_case())
-    mixed = mixed_cases(run, n // 4) + converted_twice_cases()
+    mixed = mixed_cases(run, n // 4) + converted_twice_cases() + inlined_older_model_cases()
     cases += optional_output_cases()       # compared with the model: the result identity of an Optional value needs opset 16
     for c in mixed:
         B.run_impl(c)
